@@ -39,6 +39,60 @@ pub fn pick_input(parser: &str, mode: &str, rng: &mut StdRng) -> Vec<u8> {
     }
 }
 
+thread_local! {
+    static NEIGH: std::cell::RefCell<Option<Vec<(&'static str, Vec<u8>)>>> = const { std::cell::RefCell::new(None) };
+}
+
+/// all mutants (in the order of MC_RefTotal!Mutants): the document, substitutions, insertions, deletions, truncations
+fn neighbourhood() -> Vec<(&'static str, Vec<u8>)> {
+    let path = concat!(env!("CARGO_MANIFEST_DIR"), "/data/neighbourhood.json");
+    let v: serde_json::Value = serde_json::from_str(&std::fs::read_to_string(path).expect("neighbourhood.json")).unwrap();
+    let alphabet: Vec<u8> = v["alphabet"].as_array().unwrap().iter().map(|x| x.as_u64().unwrap() as u8).collect();
+    let mut out = vec![];
+    for fmt in ["aag", "aig", "btor2"] {
+        for b in v[fmt].as_array().unwrap() {
+            let b: Vec<u8> = b.as_array().unwrap().iter().map(|x| x.as_u64().unwrap() as u8).collect();
+            out.push((fmt, b.clone()));
+            for i in 0..b.len() {
+                for &c in &alphabet {
+                    let mut m = b.clone();
+                    m[i] = c;
+                    out.push((fmt, m));
+                }
+            }
+            for i in 0..=b.len() {
+                for &c in &alphabet {
+                    let mut m = b.clone();
+                    m.insert(i, c);
+                    out.push((fmt, m));
+                }
+            }
+            for i in 0..b.len() {
+                let mut m = b.clone();
+                m.remove(i);
+                out.push((fmt, m));
+            }
+            for i in 0..=b.len() {
+                out.push((fmt, b[..i].to_vec()));
+            }
+        }
+    }
+    out
+}
+
+fn neighbourhood_doc(id: u64) -> (&'static str, Vec<u8>) {
+    NEIGH.with(|n| {
+        let mut n = n.borrow_mut();
+        if n.is_none() {
+            *n = Some(neighbourhood());
+        }
+        let all = n.as_ref().unwrap();
+        // 7919 is prime and does not divide the size: consecutive ids are spread over formats and positions
+        let k = (id as usize).wrapping_mul(7919) % all.len();
+        (all[k].0, all[k].1.clone())
+    })
+}
+
 fn variant(cfg: &RunCfg, policy: Policy, name: &str, chunk: usize, intr: u32, seed: u64) -> RunCfg {
     let mut c = cfg.clone();
     c.policy = policy;
@@ -70,6 +124,17 @@ pub fn run(opts: &HashMap<String, String>) -> i32 {
         let lit = lits[rng.gen_range(0..lits.len())];
         let flag = rng.gen_range(0..5) == 0;
         let rid = id * 1000;
+        if mode == "neigh" {
+            // the single-byte mutation neighbourhood of the documents of MC_RefTotal (the same set the reference
+            // readings are model checked on), spread over the id range
+            let (fmt, doc) = neighbourhood_doc(id);
+            let lit = ["u8", "usize"][(id % 2) as usize];
+            let p = if fmt != "btor2" && id % 3 == 0 { format!("{}_parse", fmt) } else { fmt.to_string() };
+            let base = RunCfg::reference(&p, lit, false);
+            run_traced(rid, &doc, &base);
+            runs += 1;
+            continue;
+        }
         if mode == "bounds" {
             // C06: boundary numerals; each input is run in one read and with 1-byte reads (cold scanner path)
             let flag = rng.gen_range(0..3) == 0;
